@@ -10,7 +10,7 @@
    "an unmasked frame carries the zero key".  client_frame f : wf_frame f, masked, and a Text payload
    is valid UTF-8 (what a client may send and the endpoint must receive). *)
 From Model Require Import Base WsFrame.
-From Proofs Require Import WsFrameP C18P.
+From Proofs Require Import WsFrameP WsStreamP C18P.
 Import ListNotations.
 Open Scope Z_scope.
 
@@ -100,6 +100,32 @@ Theorem C18_stream_written_by_library : forall frames encs chunks closed,
 Proof. exact C18_stream_written_by_library_proof. Qed.
 Print Assumptions C18_stream_written_by_library.
 
+(* 7. ARBITRARY bytes (well-formed or not, e.g. unmasked frames, unknown opcodes, bad UTF-8, garbage):
+      cutting the stream into reads changes nothing — the deliveries, the bytes written and the
+      exception (if any) are those of a single read of the whole stream, and without an exception
+      the final buffer and closed flag are the same too *)
+Theorem C18_chunking_irrelevant : forall chunks closed,
+  let '(s1, o1) := ws_feed {| w_buf := []; w_closed := closed |} chunks in
+  let '(s2, o2) := ws_call {| w_buf := []; w_closed := closed |} (concat chunks) in
+  o1 = o2 /\ (o_error o1 = None -> s1 = s2).
+Proof. exact C18_chunking_irrelevant_proof. Qed.
+Print Assumptions C18_chunking_irrelevant.
+
+(* 8. readFrame is local: on ANY buffer that _frameAvailable accepts, the parsed frame (or the
+      exception) does not depend on the bytes behind it and these bytes are left untouched *)
+Theorem C18_parser_is_local : forall buf more,
+  frame_available buf = true ->
+  parse_frame (buf ++ more) = (fst (parse_frame buf), snd (parse_frame buf) ++ more).
+Proof. exact C18_parser_is_local_proof. Qed.
+Print Assumptions C18_parser_is_local.
+
+(* 9. model sanity: the fuel that makes the while loop structurally recursive is never exhausted
+      (the loop of the real handler terminates on every input: each iteration consumes >= 2 bytes) *)
+Theorem C18_fuel_never_exhausted : forall chunks st,
+  o_error (snd (ws_feed st chunks)) <> Some ERecursion.
+Proof. exact C18_fuel_never_exhausted_proof. Qed.
+Print Assumptions C18_fuel_never_exhausted.
+
 (* ---------- non-vacuity ---------- *)
 Definition mkf (op : opcode) (mask : Z) (key payload : list byte) : frame :=
   {| f_fin := 1; f_rsv1 := 0; f_rsv2 := 0; f_rsv3 := 0; f_opcode := op; f_mask := mask; f_key := key;
@@ -158,3 +184,13 @@ Proof.
   split; [exact (proj1 (Forall_inv C18_client_frames_exist))|].
   split; [vm_compute; discriminate | symmetry; apply firstn_skipn].
 Qed.
+
+(* a malformed stream (Binary "a" masked, then an unmasked Text frame, then more): same outcome
+   whether it arrives in one read or byte by byte — one delivery, then the "mask bit" exception *)
+Example C18_malformed_same_outcome :
+  let s := rfc_encode (mkf OpBinary 1 key1 [byte_of_Z 97]) ++ rfc_encode (mkf OpText 0 zero_key [byte_of_Z 98]) ++ rfc_encode f_hi in
+  snd (ws_feed {| w_buf := []; w_closed := false |} (map (fun b => [b]) s)) =
+    {| o_delivered := [(OpBinary, [byte_of_Z 97])]; o_written := []; o_error := Some EOther |} /\
+  snd (ws_call {| w_buf := []; w_closed := false |} s) =
+    {| o_delivered := [(OpBinary, [byte_of_Z 97])]; o_written := []; o_error := Some EOther |}.
+Proof. vm_compute. split; reflexivity. Qed.
